@@ -369,17 +369,20 @@ PROPS = {
         'lean_targets': ['Cqos.Props.C05'],
         'theorems': ['Cqos.C05.addUp_spec', 'Cqos.C05.sat_calc', 'Cqos.C05.sat_recalc', 'Cqos.C05.sat_step', 'Cqos.C05.sat_run',
                      'Cqos.C05.c05_share', 'Cqos.C05.c05_full', 'Cqos.C05.wellBehaved_fair', 'Cqos.C05.wellBehaved_rate',
-                     'Cqos.C05.sum_strategic_fair', 'Cqos.C05.sum_strategic_rate'],
+                     'Cqos.C05.sum_strategic_fair', 'Cqos.C05.sum_strategic_rate',
+                     'Cqos.C05.sat_initV1', 'Cqos.C05.c05_share_v1', 'Cqos.C05.c05_full_v1'],
         'runs': [{'cmd': 'stepper', 'args': ['-family', 'saturated']}],
         'monitor_prefix': ['C05'],
         'level': 'proof',
-        'level_text': ('Lean theorems on the v2 scheduler machine for every saturated action list (no poll ever finds an input empty '
+        'level_text': ('Lean theorems on the scheduler machine (v2 from New; v1 from New as long as there is no Stop/cancel and no '
+                       'AddInput/RemoveInput) for every saturated action list (no poll ever finds an input empty '
                        'or closed) - every order, grouping and timing of releases - and every additive, call-independent, sum-preserving '
                        'divider (Fair and Rate are proved to be instances): each priority\'s in-flight count never exceeds its share; '
                        'whenever the discipline waits for a release all H handlers are accounted busy, and with no release outstanding '
                        'every priority holds exactly its share. Tied by the stepper family that keeps every buffered input full'),
-        'level_note': ('trusted: correspondence by differential stepping; v1 shares the round calculus (same model functions) but the '
-                       'run-level theorem is stated for v2; unbuffered inputs are outside the property (buffered inputs)'),
+        'level_note': ('trusted: correspondence by differential stepping; unbuffered inputs are outside the property ("data waiting '
+                       'continuously" cannot be observed by iou, which may see two interrupter ticks in a row); the monitor computes the '
+                       'share with the library divider on the sorted priorities, not from the discipline\'s own strategic map'),
         'rule': 'stepper family saturated: inputs of capacity H+2 refilled before every round; releases none/one/some/all per round',
         'trusted_base': [],
         'assumptions': ['saturation as a property of the action list (pollEmpty / pollClosed never occur)'],
